@@ -21,7 +21,7 @@ func fileFilter(kind string) func(name string, src []byte) []byte {
 		}
 		isV5 := strings.HasSuffix(name, "_v5.go")
 		isLeg := strings.HasSuffix(name, "_legacy.go")
-		if kind == "legacy" {
+		if kind == "legacy" || kind == "cmdlegacy" {
 			if isV5 {
 				return nil
 			}
@@ -60,9 +60,15 @@ func buildOverlay(kind, modDir string) (map[string][]byte, error) {
 				return nil, err
 			}
 		}
-	case "legacy":
+	case "legacy", "cmdlegacy":
 		if err := overlayDir(ov, filepath.Join(hd, "injp_legacy"), modDir, ff); err != nil && !os.IsNotExist(err) {
 			return nil, err
+		}
+		if kind == "cmdlegacy" {
+			// the root command: same in-package harness, imports rewritten to the root package by the file filter
+			if err := overlayDir(ov, filepath.Join(hd, "incmd"), filepath.Join(modDir, "cmd", "json-patch"), ff); err != nil {
+				return nil, err
+			}
 		}
 	}
 	return ov, nil
@@ -102,7 +108,7 @@ func stageLegacy(repo string) (string, error) {
 			}
 		}
 	}
-	gomod := "module " + legacyPath + "\n\ngo 1.18\n\nrequire (\n\tgithub.com/jessevdk/go-flags v1.6.1\n\tgithub.com/pkg/errors v0.9.1\n)\n"
+	gomod := "module " + legacyPath + "\n\ngo 1.18\n\nrequire (\n\tgithub.com/jessevdk/go-flags v1.6.1\n\tgithub.com/pkg/errors v0.9.1\n)\n\nrequire golang.org/x/sys v0.21.0 // indirect\n"
 	if err := os.WriteFile(filepath.Join(tmp, "go.mod"), []byte(gomod), 0o644); err != nil {
 		return tmp, err
 	}
@@ -125,7 +131,7 @@ func loadTarget(repo, kind string) (*Target, error) {
 		modDir = filepath.Join(repo, "v5")
 		patterns = []string{"./cmd/json-patch", "./zzverif"}
 		harn = "/cmd/json-patch"
-	case "legacy":
+	case "legacy", "cmdlegacy":
 		tmp, err := stageLegacy(repo)
 		t.tmp = tmp
 		if err != nil {
@@ -133,6 +139,10 @@ func loadTarget(repo, kind string) (*Target, error) {
 		}
 		modDir = tmp
 		patterns = []string{"./zzverif"}
+		if kind == "cmdlegacy" {
+			patterns = []string{"./cmd/json-patch", "./zzverif"}
+			harn = "/cmd/json-patch"
+		}
 	default:
 		return nil, fmt.Errorf("unknown target %q", kind)
 	}
